@@ -15,8 +15,12 @@ EXTENDS Integers, Sequences, FiniteSets, TLC, Json
 
 CONSTANTS MaxDepth
 
-Kinds == {"C", "F"}
+\* "B" = a compound statement that opens no scope (an `if` block): what it holds belongs to what encloses the block
+Kinds == {"C", "F", "B"}
 Paths == UNION {[1..n -> Kinds] : n \in 1..MaxDepth}
+\* the container whose scope position i stands in: the nearest one above that is not a mere block ("M" = the module)
+RECURSIVE Encl(_, _)
+Encl(p, i) == IF i = 1 THEN "M" ELSE IF p[i - 1] # "B" THEN p[i - 1] ELSE Encl(p, i - 1)
 \* spelling choices of the defs: the innermost def and the def that directly encloses it
 InnerNames == {"__init__", "g"}
 OuterNames == {"m", "__init__"}
@@ -29,8 +33,9 @@ Tabs(n) == IF n = 0 THEN "" ELSE "\t" \o Tabs(n - 1)
 \* classification of the definition at position i of path p
 KindOf(p, i, name, deco) ==
   IF p[i] = "C" THEN "Class"
-  ELSE IF i = 1 THEN "Function"
-  ELSE IF p[i - 1] = "C" THEN (IF deco = "classmethod" THEN "ClassMethod" ELSE IF deco = "staticmethod" THEN "Function"
+  ELSE IF p[i] = "B" THEN "Block"
+  ELSE IF Encl(p, i) = "M" THEN "Function"
+  ELSE IF Encl(p, i) = "C" THEN (IF deco = "classmethod" THEN "ClassMethod" ELSE IF deco = "staticmethod" THEN "Function"
                                ELSE IF name = "__init__" THEN "Constructor" ELSE "Method")
   ELSE "Closure"
 
@@ -40,18 +45,20 @@ NameAt(p, i, inner, outer) ==
   ELSE IF i = Len(p) THEN inner
   ELSE IF i = Len(p) - 1 THEN outer
   ELSE "f" \o ToString(i)
-DecoAt(p, i, deco) == IF i = Len(p) /\ p[i] = "F" /\ i > 1 /\ p[i - 1] = "C" THEN deco ELSE ""
+DecoAt(p, i, deco) == IF i = Len(p) /\ p[i] = "F" /\ Encl(p, i) = "C" THEN deco ELSE ""
 
 \* a def directly in a class takes self (cls under @classmethod); other defs take one int parameter
 HeadLine(p, i, name, deco) ==
   IF p[i] = "C" THEN "class " \o name \o ":"
-  ELSE LET inclass == i > 1 /\ p[i - 1] = "C"
+  ELSE IF p[i] = "B" THEN "if True:"
+  ELSE LET inclass == Encl(p, i) = "C"
            params == IF inclass /\ deco # "staticmethod" THEN (IF deco = "classmethod" THEN "cls" ELSE "self") ELSE "a" \o ToString(i) \o ": int"
            ret == IF name = "__init__" /\ inclass /\ deco = "" THEN "None" ELSE "int"
        IN "def " \o name \o "(" \o params \o ") -> " \o ret \o ":"
 BodyLine(p, i, name, deco) ==
   IF p[i] = "C" THEN "n" \o ToString(i) \o ": int"
-  ELSE IF name = "__init__" /\ i > 1 /\ p[i - 1] = "C" /\ deco = "" THEN "..." ELSE "return 1"
+  ELSE IF p[i] = "B" THEN "pass"
+  ELSE IF name = "__init__" /\ Encl(p, i) = "C" /\ deco = "" THEN "..." ELSE "return 1"
 
 RECURSIVE Text(_, _, _, _, _)
 Text(p, i, inner, outer, deco) ==
@@ -70,18 +77,21 @@ LineOf(p, i, deco) == IF i = 1 THEN (IF DecoAt(p, 1, deco) # "" THEN 2 ELSE 1)
 Cases == {[p |-> p, inner |-> inner, outer |-> outer, deco |-> deco] :
             p \in {q \in Paths : q[Len(q)] = "F"}, inner \in InnerNames, outer \in OuterNames, deco \in Decos}
 \* spelling variants that change nothing are dropped: a decorator only exists on a def directly in a class; `outer` only when the def above is a def
-Relevant(c) == /\ (c.deco = "" \/ (Len(c.p) > 1 /\ c.p[Len(c.p) - 1] = "C"))
+Relevant(c) == /\ (c.deco = "" \/ Encl(c.p, Len(c.p)) = "C")
+               /\ Cardinality({i \in DOMAIN c.p : c.p[i] = "B"}) <= 1
                /\ ~(c.deco = "staticmethod" /\ c.inner = "__init__")      \* a static __init__ means nothing in particular
                /\ (c.outer = "m" \/ (Len(c.p) > 1 /\ c.p[Len(c.p) - 1] = "F"))
-Expect(c) == [i \in DOMAIN c.p |-> [line |-> LineOf(c.p, i, c.deco), name |-> NameAt(c.p, i, c.inner, c.outer),
+ExpectAll(c) == [i \in DOMAIN c.p |-> [line |-> LineOf(c.p, i, c.deco), name |-> NameAt(c.p, i, c.inner, c.outer),
                                      kind |-> KindOf(c.p, i, NameAt(c.p, i, c.inner, c.outer), DecoAt(c.p, i, c.deco))]]
+
+Expect(c) == SelectSeq(ExpectAll(c), LAMBDA e : e.kind # "Block")
 
 \* the name of a def never decides whether it is a closure: only what directly encloses it
 ClosureByPositionOnly == \A c \in Cases : \A i \in DOMAIN c.p :
    (c.p[i] = "F" /\ i > 1 /\ c.p[i - 1] = "F") => KindOf(c.p, i, NameAt(c.p, i, c.inner, c.outer), DecoAt(c.p, i, c.deco)) = "Closure"
-\* a constructor is always directly inside a class body
+\* a constructor always stands in the scope of a class body
 ConstructorDirectlyInClass == \A c \in Cases : \A i \in DOMAIN c.p :
-   KindOf(c.p, i, NameAt(c.p, i, c.inner, c.outer), DecoAt(c.p, i, c.deco)) = "Constructor" => (i > 1 /\ c.p[i - 1] = "C")
+   KindOf(c.p, i, NameAt(c.p, i, c.inner, c.outer), DecoAt(c.p, i, c.deco)) = "Constructor" => Encl(c.p, i) = "C"
 
 \* ---- ordered lists: wherever the grammar has a list (stacked decorators, decorator arguments, base classes, elif
 \* clauses, with items, parameters), the node tree lists the items in the order of the text.  Every permutation of
